@@ -10,7 +10,7 @@ func init() {
 		Runs: []HarnessRun{
 			{Pkg: "wire", Entry: "VerifH13a", What: "Read: CopyData -> payload, Flush/Sync skipped, CopyDone -> EOF, CopyFail/other -> non-nil non-EOF, reader itself writes nothing",
 				Quick: map[string]int{"K": 2, "N": 2}, Thorough: map[string]int{"K": 3, "N": 3},
-				Witnesses: []string{"copy-done", "copy-fail", "foreign-message", "flush-or-sync-skipped", "second-copydata"}},
+				Witnesses: []string{"copy-done", "copy-fail", "foreign-message", "flush-or-sync-skipped", "second-copydata", "truncated-copydata"}},
 			{Pkg: "wire", Entry: "VerifH13b", What: "cycle: CopyInResponse per column/format, payloads in order, exactly one E and one Z on abort, C Z on success, stray COPY messages ignored",
 				Quick: map[string]int{"K": 2, "N": 1}, Thorough: map[string]int{"K": 3, "N": 2},
 				Witnesses: []string{"copy-completed", "copy-aborted", "handler-stopped", "stray-copy-message"}},
